@@ -14,8 +14,8 @@ open JsonV.Lemmas.StateRefine JsonV.Lemmas.StateRun
 
 /-! ### the loop -/
 
-/-- the loop does not end with io.EOF -/
-def Rej (x : Nat × Nat × Err) : Prop := x.2.2 ≠ .ioEOF
+/-- the loop does not end with io.EOF, and completes no further top-level value -/
+def Rej (cnt : Nat) (x : Nat × Nat × Err) : Prop := x.1 = cnt ∧ x.2.2 ≠ .ioEOF
 
 theorem tokenLoop_err (o : VOpts) (F : Nat) (st : TState) (r : Bytes) (cnt base off : Nat) (e : Err)
     (h : readToken o st r = .err off e) : tokenLoop o (F + 1) st r cnt base = (cnt, base + off, e) := by
@@ -28,16 +28,16 @@ theorem tokenLoop_tok (o : VOpts) (F : Nat) (st st' : TState) (r : Bytes) (cnt b
   simp [tokenLoop, h, hn]
 
 theorem rej_of_err (o : VOpts) (st : TState) (r : Bytes) (cnt base off : Nat) (e : Err)
-    (h : readToken o st r = .err off e) (he : e ≠ .ioEOF) : ∀ F, Rej (tokenLoop o F st r cnt base) := by
+    (h : readToken o st r = .err off e) (he : e ≠ .ioEOF) : ∀ F, Rej cnt (tokenLoop o F st r cnt base) := by
   intro F
   cases F with
   | zero => simp [tokenLoop, Rej]
-  | succ F => rw [tokenLoop_err o F st r cnt base off e h]; exact he
+  | succ F => rw [tokenLoop_err o F st r cnt base off e h]; exact ⟨rfl, he⟩
 
 /-- `T` tokens are read from `(st, r)` and lead to `(st', r')` -/
 def Steps (o : VOpts) (T : Nat) (st : TState) (r : Bytes) (cnt base : Nat) (st' : TState) (r' : Bytes) (cnt' base' : Nat) : Prop :=
   (∀ F, T ≤ F → tokenLoop o F st r cnt base = tokenLoop o (F - T) st' r' cnt' base') ∧
-  (∀ F, F < T → (tokenLoop o F st r cnt base).2.2 = .fuel)
+  (∀ F, F < T → (tokenLoop o F st r cnt base).2.2 = .fuel ∧ (tokenLoop o F st r cnt base).1 = cnt)
 
 theorem steps_refl (o : VOpts) (st : TState) (r : Bytes) (cnt base : Nat) : Steps o 0 st r cnt base st r cnt base :=
   ⟨by intro F _; simp, by intro F h; omega⟩
@@ -55,7 +55,7 @@ theorem steps_one (o : VOpts) (st st' : TState) (r : Bytes) (cnt base n : Nat)
     subst this; simp [tokenLoop]
 
 theorem steps_trans (o : VOpts) {T1 T2 : Nat} {s1 s2 s3 : TState} {r1 r2 r3 : Bytes} {c1 c2 c3 b1 b2 b3 : Nat}
-    (h1 : Steps o T1 s1 r1 c1 b1 s2 r2 c2 b2) (h2 : Steps o T2 s2 r2 c2 b2 s3 r3 c3 b3) :
+    (h1 : Steps o T1 s1 r1 c1 b1 s2 r2 c2 b2) (h2 : Steps o T2 s2 r2 c2 b2 s3 r3 c3 b3) (hc : c2 = c1 := by rfl) :
     Steps o (T1 + T2) s1 r1 c1 b1 s3 r3 c3 b3 := by
   refine ⟨?_, ?_⟩
   · intro F hF
@@ -64,15 +64,15 @@ theorem steps_trans (o : VOpts) {T1 T2 : Nat} {s1 s2 s3 : TState} {r1 r2 r3 : By
   · intro F hF
     by_cases h : F < T1
     · exact h1.2 F h
-    · rw [h1.1 F (by omega)]; exact h2.2 (F - T1) (by omega)
+    · rw [h1.1 F (by omega), ← hc]; exact h2.2 (F - T1) (by omega)
 
 theorem rej_of_steps (o : VOpts) {T : Nat} {s1 s2 : TState} {r1 r2 : Bytes} {c1 c2 b1 b2 : Nat}
-    (h : Steps o T s1 r1 c1 b1 s2 r2 c2 b2) (hr : ∀ F, Rej (tokenLoop o F s2 r2 c2 b2)) :
-    ∀ F, Rej (tokenLoop o F s1 r1 c1 b1) := by
+    (h : Steps o T s1 r1 c1 b1 s2 r2 c2 b2) (hr : ∀ F, Rej c2 (tokenLoop o F s2 r2 c2 b2)) (hc : c2 = c1 := by rfl) :
+    ∀ F, Rej c1 (tokenLoop o F s1 r1 c1 b1) := by
   intro F
   by_cases hF : F < T
-  · unfold Rej; rw [h.2 F hF]; simp
-  · rw [h.1 F (by omega)]; exact hr _
+  · unfold Rej; obtain ⟨h1, h2⟩ := h.2 F hF; rw [h1, h2]; simp
+  · rw [h.1 F (by omega), ← hc]; exact hr _
 
 /-! ### readToken on aligned input -/
 
@@ -230,7 +230,7 @@ theorem delim_closing_of_nc0 (f : Frame) (frest : Frames) (k : Kind) (h : ncDeli
 theorem rej_delimbyte (o : VOpts) {b : Nat} {st : TState} {f : Frame} {frest : Frames} (h : TGood b st (f :: frest))
     (pre : Bytes) (c : UInt8) (tl : Bytes) (hpre : PreOK (ncDelim (f :: frest)) pre)
     (hcd : (c == 0x3A || c == 0x2C) = true) (cnt base : Nat) :
-    ∀ F, Rej (tokenLoop o F st (pre ++ c :: tl) cnt base) := by
+    ∀ F, Rej cnt (tokenLoop o F st (pre ++ c :: tl) cnt base) := by
   have hcw : isWs c = false := by
     simp only [Bool.or_eq_true, beq_iff_eq] at hcd; rcases hcd with rfl | rfl <;> decide
   have hck : normKind c = 0 := by
@@ -318,7 +318,7 @@ theorem rej_closing (o : VOpts) {b : Nat} {st : TState} {f : Frame} {frest : Fra
     (hb : b + 1 < 2^61) (pre : Bytes) (c : UInt8) (tl : Bytes) (hpre : PreOK (ncDelim (f :: frest)) pre)
     (hcl : c = 0x5D ∨ c = 0x7D) (hno1 : ¬ (f = .arr 0 ∧ c = 0x5D ∧ frest ≠ []))
     (hno2 : ¬ (f = .obj 0 ∧ c = 0x7D ∧ frest ≠ [])) (cnt base : Nat) :
-    ∀ F, Rej (tokenLoop o F st (pre ++ c :: tl) cnt base) := by
+    ∀ F, Rej cnt (tokenLoop o F st (pre ++ c :: tl) cnt base) := by
   obtain ⟨k, hck⟩ : ∃ k : Kind, (c = 0x5D ∧ k = .endArr) ∨ (c = 0x7D ∧ k = .endObj) := by
     rcases hcl with rfl | rfl
     · exact ⟨.endArr, Or.inl ⟨rfl, rfl⟩⟩
@@ -425,7 +425,7 @@ theorem rej_unexpected (o : VOpts) {b : Nat} {st : TState} {fs : Frames} (h : TG
       delimByte (delim fs k) ≠ 0 ∨ PDA.step maxNestingDepth fs k = none)
     (hcolon : ∀ k : Kind, k.closing = true → delimByte (delim fs k) = 0x3A → ncDelim fs = 0x3A)
     (hcomma : ∀ k : Kind, k.closing = true → delimByte (delim fs k) ≠ 0x2C)
-    (cnt base : Nat) : ∀ F, Rej (tokenLoop o F st (w ++ c :: tl) cnt base) := by
+    (cnt base : Nat) : ∀ F, Rej cnt (tokenLoop o F st (w ++ c :: tl) cnt base) := by
   by_cases hcd : (c == 0x3A || c == 0x2C) = true
   · -- taken for a delimiter: whatever follows does not ask for it
     have hnd : ∀ x, st.m.needDelim x ≠ c := by
@@ -494,7 +494,7 @@ theorem rej_unexpected (o : VOpts) {b : Nat} {st : TState} {fs : Frames} (h : TG
 
 /-- end of input (blanks only) inside a container, possibly after the delimiter -/
 theorem rej_end (o : VOpts) {b : Nat} {st : TState} {fs : Frames} (h : TGood b st fs) (hd : 2 ≤ fs.length)
-    (w : Bytes) (hw : JWs w) (cnt base : Nat) : ∀ F, Rej (tokenLoop o F st w cnt base) := by
+    (w : Bytes) (hw : JWs w) (cnt base : Nat) : ∀ F, Rej cnt (tokenLoop o F st w cnt base) := by
   have hrt := readToken_end o st w hw
   have : (st.m.depth == 1) = false := by rw [good_depth h]; simp; omega
   rw [this] at hrt
